@@ -203,3 +203,72 @@ def event(opname, a, pre_vals, backend, pre_objs=None):
     ev = {"op": opname, "bk": backend, "a": a, "pre": [enc(o) for o in objs], "post": post}
     proj.chk(ev)
     return ev, res
+
+
+# ---------------------------------------------------------------- C15
+def _helpers():
+    import pendulum.helpers as H
+
+    return H
+
+
+@op("year_prims")
+def _year_prims(a, pre):
+    H = _helpers()
+    y = a["y"]
+    return {"k": "arr", "v": [int(bool(H.is_leap(y))), int(bool(H.is_long_year(y))), int(H.days_in_year(y))]}
+
+
+@op("year_weekdays")
+def _year_weekdays(a, pre):
+    H = _helpers()
+    y = a["y"]
+    d = _dt.date(y, 1, 1)
+    out = []
+    one = _dt.timedelta(days=1)
+    while d.year == y:
+        out.append(int(H.week_day(d.year, d.month, d.day)))
+        if d == _dt.date.max:
+            break
+        d += one
+    return {"k": "arr", "v": out}
+
+
+@op("year_getters")
+def _year_getters(a, pre):
+    p = P()
+    y = a["y"]
+    cls = a["cls"]
+    nd = 366 if (y % 4 == 0 and (y % 100 != 0 or y % 400 == 0)) else 365
+    first = _dt.date(y, 1, 1).toordinal()
+    res = {"k": "getters", "dow": [], "doy": [], "woy": [], "wom": [], "dim": [], "q": [], "leap": [], "long": []}
+    tz = None
+    if cls == "DateTimeTz":
+        tz = tzobj(a["tz"])
+    for k in range(nd):
+        n = _dt.date.fromordinal(first + k)
+        if cls == "Date":
+            x = p.Date(n.year, n.month, n.day)
+        elif cls == "DateTime":
+            x = p.DateTime(n.year, n.month, n.day, 13, 14, 15, tzinfo=p.UTC)
+        else:
+            x = p.DateTime(n.year, n.month, n.day, 12, 0, 0, tzinfo=tz, fold=a.get('f', 0))
+        res["dow"].append(int(x.day_of_week))
+        res["doy"].append(int(x.day_of_year))
+        res["woy"].append(int(x.week_of_year))
+        res["wom"].append(int(x.week_of_month))
+        res["dim"].append(int(x.days_in_month))
+        res["q"].append(int(x.quarter))
+        res["leap"].append(int(bool(x.is_leap_year())))
+        res["long"].append(int(bool(x.is_long_year())))
+    return res
+
+
+@op("local_time_scan")
+def _local_time_scan(a, pre):
+    H = _helpers()
+    out = []
+    for k, (ds, off, us) in enumerate(zip(a["ds"], a["offs"], a["us"])):
+        unix = (a["day0"] + k - E) * 86400 + ds
+        out.append([int(v) for v in H.local_time(unix, off, us)])
+    return {"k": "arr", "v": out}
